@@ -947,6 +947,19 @@ impl<'a> Shrinker<'a> {
     fn shrink(&mut self, c: &Case, v: &Viol) -> Case {
         let mut cur = c.clone();
         let want = (v.step, v.layer.clone());
+        // jump first: most defects already show on the simplest cases (cached after their first run)
+        let simplest = [
+            Case { pre: Pre::None, batch: BatchSpec::Explicit(vec![]), ..c.clone() },
+            Case { pre: Pre::None, batch: BatchSpec::Explicit(vec![1]), ..c.clone() },
+            Case { batch: BatchSpec::Explicit(vec![]), ..c.clone() },
+            Case { batch: BatchSpec::Explicit(vec![1]), ..c.clone() },
+        ];
+        for cand in simplest {
+            if cand != *c && combos_allowed(cand.kind, cand.pre) && self.probe(&cand) == Some(want.clone()) {
+                cur = cand;
+                break;
+            }
+        }
         loop {
             let mut changed = false;
             for cand in self.candidates(&cur) {
@@ -1026,6 +1039,10 @@ fn enumerate(ctx: &Ctx) -> Vec<Case> {
         let deep = b.len() > full_len;
         let pres: &[Pre] = if deep { &[Pre::None, Pre::Rows] } else { &PRES };
         for &pre in pres {
+            // quick tier, deep level: with existing rows only the batches that can collide with them (key 1)
+            if quick && deep && pre == Pre::Rows && !b.iter().any(|l| ALPHA[*l as usize].0 == Some(1)) {
+                continue;
+            }
             for kind in KINDS {
                 if deep && matches!(kind, Kind::BigPk | Kind::InSchema) {
                     continue;
@@ -1053,9 +1070,9 @@ fn enumerate(ctx: &Ctx) -> Vec<Case> {
                             api != Api::BatchSchema
                                 && match n {
                                     0 | 1 => !pre.reopens(),
-                                    2 => pre.reopens(),
+                                    2 => pre.reopens() && order != Order::Rev,
                                     63 | 65 => core_kind && !pre.reopens() && order != Order::DupLast,
-                                    64 => core_kind && pre != Pre::ReopenEmpty,
+                                    64 => core_kind && pre != Pre::ReopenEmpty && order != Order::Rev,
                                     _ => matches!(kind, Kind::Plain | Kind::Pk | Kind::SecIdx) && !pre.reopens() && order != Order::Rev,
                                 }
                         } else {
